@@ -54,11 +54,19 @@ def run_unit(idx, timeout_s, second):
     except Exception:  # engine crash
         return {"unit": c.target, "self_cls": c.self_cls, "error": "crash: " + traceback.format_exc(), "obls": [], "info": {}}
     res = []
+    failed = {}
     for ob in obls:
-        try:
-            solve.discharge(ob, timeout_s, second)
-        except Exception as e:  # pragma: no cover
-            ob.status, ob.backend = "error", f"{e}"
+        if failed.get(ob.kind, 0) >= 2 and not ob.expect_sat:
+            # the same clause already failed on two other paths of this unit: the verdict is settled, the
+            # solver portfolio (tens of seconds per unprovable obligation) is not run again
+            ob.status, ob.backend, ob.time = "candidate", "not re-solved: the same clause already failed on two other paths of this unit", 0.0
+        else:
+            try:
+                solve.discharge(ob, timeout_s, second)
+            except Exception as e:  # pragma: no cover
+                ob.status, ob.backend = "error", f"{e}"
+        if ob.status in ("sat", "candidate") and not ob.expect_sat:
+            failed[ob.kind] = failed.get(ob.kind, 0) + 1
         r = {
             "name": ob.name, "kind": ob.kind, "status": ob.status, "backend": ob.backend, "time": round(ob.time, 4),
             "line": ob.line, "func": ob.func, "expect_sat": ob.expect_sat, "note": ob.note,
@@ -371,7 +379,8 @@ def native_replay(prop, r, ob, rep):
     details = []
     try:
         for drv in drvs:
-            key = (drv, "generic") if drv.startswith("seq_") else None
+            # drivers that search on their own (they do not read the witness) are run once per check
+            key = (drv, "generic") if drv.startswith(("seq_", "bnd_", "units_", "grid_")) else None
             if key is not None and key in _REPLAY_CACHE:
                 ok, txt = _REPLAY_CACHE[key]
             else:
